@@ -67,12 +67,19 @@ def inline_simple_call(prog: Program, cls_name: str, e):
 class Evaluator:
     prog: Optional[Program] = None
 
+    def strict_subclasses(self, name):
+        if self.prog is None:
+            return []
+        base = self.prog.cls(name)
+        return sorted(c.name for c in self.prog.subclasses(base) if c.name != name)
+
     def x(self, e):
         return inline_simple_call(self.prog, 'MosCollection', e) if self.prog is not None else e
 
     def __init__(self, fi: FuncInfo, row):
         self.fi = fi
-        self.empty, self.same_id, self.n_create, self.n_delete, self.allow = row
+        self.empty, self.same_id, self.n_create, self.n_delete, self.allow = row[:5]
+        self.n_sub = row[5] if len(row) > 5 else 0          # readers whose class is a strict subclass of RunningOrder (roReplace)
         self.lists: Dict[str, int] = {}      # local name -> length
         self.vals: Dict[str, object] = {}
         self.aliases = {'self.mos_readers', 'self._mos_readers'}    # expressions denoting the reader list
@@ -80,7 +87,7 @@ class Evaluator:
         for a, d in list(zip(fi.node.args.args[::-1], fi.node.args.defaults[::-1])) + list(zip(fi.node.args.kwonlyargs, fi.node.args.kw_defaults)):
             if a.arg == 'allow_incomplete':
                 self.allow_name = a.arg
-        self.total = 0 if self.empty else max(1, self.n_create + self.n_delete)
+        self.total = 0 if self.empty else max(1, self.n_create + self.n_delete + self.n_sub)
 
     # -- expressions
     def length_of(self, e) -> Optional[int]:
@@ -100,9 +107,23 @@ class Evaluator:
         if norm(g.iter) not in self.aliases or len(g.ifs) != 1:
             return None
         c = g.ifs[0]
-        if not (isinstance(c, ast.Compare) and len(c.ops) == 1 and norm(c.left).endswith('.mos_type')):
-            if isinstance(c, ast.Call) and norm(c.func) in ('issubclass', 'isinstance'):
+        negate = False
+        while isinstance(c, ast.UnaryOp) and isinstance(c.op, ast.Not):
+            c, negate = c.operand, not negate
+        if isinstance(c, ast.Call) and norm(c.func) in ('issubclass', 'isinstance') and len(c.args) == 2:
+            # issubclass(mr.mos_type, C) / isinstance(mr.mos_object, C): C and its subclasses
+            subj = norm(c.args[0])
+            if not ((norm(c.func) == 'issubclass' and subj.endswith('.mos_type')) or (norm(c.func) == 'isinstance' and subj.endswith('.mos_object'))):
                 raise Unrecognised(norm(c))
+            cls = norm(c.args[1])
+            subs = self.strict_subclasses('RunningOrder')
+            n = {'RunningOrder': self.n_create + self.n_sub, 'RunningOrderEnd': self.n_delete, 'MosFile': self.total}.get(cls)
+            if n is None and len(subs) == 1 and cls == subs[0]:
+                n = self.n_sub
+            if n is None:
+                raise Unrecognised(f'filter on {norm(c)}')
+            return self.total - n if negate else n
+        if negate or not (isinstance(c, ast.Compare) and len(c.ops) == 1 and norm(c.left).endswith('.mos_type')):
             return None
         cls = norm(c.comparators[0])
         n = {'RunningOrder': self.n_create, 'RunningOrderEnd': self.n_delete}.get(cls)
@@ -292,12 +313,13 @@ def accept_table(res: CheckResult, prog: Program):
               for c in ast.walk(init.node))
     res.add('ACCEPT-TABLE', init.short, 'self._validate(allow_incomplete=allow_incomplete)', fwd, '' if fwd else 'allow_incomplete is not forwarded to the validation', init.file, init.node.lineno)
     post = {}
-    rows = list(itertools.product([True, False], [True, False], [0, 1, 2, 3], [0, 1, 2, 3], [True, False]))
-    for empty, same_id, nc, nd, allow in rows:
-        if empty and (nc or nd or not same_id):
+    Evaluator.prog = prog
+    has_sub = bool(Evaluator(fi, (True, True, 0, 0, True)).strict_subclasses('RunningOrder'))
+    rows = list(itertools.product([True, False], [True, False], [0, 1, 2, 3], [0, 1, 2, 3], [True, False], [0, 1] if has_sub else [0]))
+    for empty, same_id, nc, nd, allow, nsub in rows:
+        if empty and (nc or nd or nsub or not same_id):
             continue
-        Evaluator.prog = prog
-        ev = Evaluator(fi, (empty, same_id, nc, nd, allow))
+        ev = Evaluator(fi, (empty, same_id, nc, nd, allow, nsub))
         try:
             try:
                 ev.run([s for s in fi.node.body])
@@ -313,7 +335,7 @@ def accept_table(res: CheckResult, prog: Program):
             res.error(f'ACCEPT-TABLE: unrecognised construct in MosCollection._validate: {u}')
             return
         want = 'accept' if spec_accept(empty, same_id, nc, nd, allow) else 'reject:InvalidMosCollection'
-        label = f'empty={empty} same_id={same_id} roCreates={nc} roDeletes={nd} allow_incomplete={allow}'
+        label = f'empty={empty} same_id={same_id} roCreates={nc} roDeletes={nd} allow_incomplete={allow}' + (f' roReplaces={nsub}' if nsub else '')
         res.add('ACCEPT-TABLE', fi.short, label, outcome == want, '' if outcome == want else f'the code gives {outcome}, the specification {want}', fi.file, fi.node.lineno)
         if outcome == 'accept':
             post = dict(ev.vals)
